@@ -3,6 +3,7 @@ package checks
 import (
 	"encoding/json"
 	"fmt"
+	"math/rand"
 	"reflect"
 	"runtime"
 	"sort"
@@ -34,6 +35,14 @@ import (
 // for what survived, every surviving peer is probed (read, new subscription, authorised write), and the
 // taps are observed until 5 x the approval timeout after the teardown returned. Reference registries
 // decide what must be gone and what must still be there; see c10Case for the individual oracles.
+// Repeated announcements (second PRNG c10Aux, so that the histories drawn from c.Rand stay what they were): every
+// peer, with probability 1/2, announces its unchanged tree once more somewhere in the history - the whole detailed
+// discovery reply again, or a partial notify lastStateChange=added for one known entity with its features - and in
+// a quarter of the cases a random set of peers does so right before the cut. The stack rebuilds the feature objects
+// of a re-announced entity; what the teardown removes and keeps must not depend on that (all oracles unchanged:
+// all and only the victim's entries go, one removal event per entry, a freed server feature can be bound by
+// another peer). Window and expiry parts do the same in a third / a quarter of their cases. In half of the entity
+// removals the notify additionally lists a never announced entity as removed, before or after the known one.
 //
 // expiry / expiry-race (c10Expiry): two peers, approval timeout 200 us - 2 ms, the teardown is aimed at
 // the moment the victim's timers expire (optionally held at the hook inside RemoveRemoteDevice), so the
@@ -52,7 +61,11 @@ import (
 // passed; the re-sent writes are pending again (long timeout). Whatever was armed for the OLD connection
 // must neither write to the old connection nor touch the pending approvals of the new one. A quarter of
 // the cases instead removes the connection while an approval of the application is between the lookup of
-// the pending write and its execution (hook ApproveOrDenyWrite.afterLookup).
+// the pending write and its execution (hook ApproveOrDenyWrite.afterLookup). Another quarter (second PRNG) is the
+// stale-approvals history of x_c10c12_stale.go: k in {2,3} callbacks, the writes of the first connection collect
+// up to k-1 approvals and TIME OUT before the connection is removed; the writes re-sent with the same counters on
+// the second connection must not be applied before all k callbacks approved them (judged at the return of every
+// single ApproveOrDenyWrite call), a denial yields exactly one error result and unchanged data.
 
 const c10Timeout = 50 * time.Millisecond
 const c10Horizon = 5 * c10Timeout
@@ -67,7 +80,9 @@ func init() {
 		"SubscribeToRemote/BindToRemote of 2 local client features, cut at a random point; 0-2 writes per peer pending approval at the cut (timeout 50 ms, callbacks silent, one feature with a second approving callback); " +
 		"teardown = disconnect | remove [1] | remove [1,1] of a random peer (preferring one with pending writes), one third with another peer's reads/subscribes/binds processed concurrently; then the rest of the history and a service probe per surviving peer. " +
 		"A case is non-trivial if the torn-down device/entity held at least one registry entry and one bookkeeping flag, and another peer held an entry with the same entity and feature numbers. " +
-		"distinct = distinct (teardown kind, concurrent, #entries removed, #flags removed, #pending writes of the removed peer, #pending writes of others). " +
+		"distinct = distinct (teardown kind, concurrent, #entries removed, #flags removed, #pending writes of the removed peer, #pending writes of others, victim re-announced, unknown entity listed). " +
+		"Repeated announcements (second per-case PRNG): every peer with probability 1/2 repeats its unchanged detailed discovery reply or announces one known entity again (partial notify lastStateChange=added with the entity's features) at a random point of the history, " +
+		"in a quarter of the cases additionally a random set of peers right before the cut; half of the entity-removal notifies also list a never announced entity [9] as removed, before or after the known one. " +
 		"expiry parts: case = 2 identically numbered peers, each bound to one approval feature, 1-3 writes of the victim and 0-2 of the other peer pending under a very short approval timeout (200 us - 2 ms); the disconnect (half of them held at the hook " +
 		"RemoveRemoteDevice.beforeCleanup) or the entity-removal notification is aimed at the expiry of those timers (offset within +-150 us); non-trivial if the expiry of at least one timer of the victim fell between start and return of the teardown call; " +
 		"distinct = distinct (kind, timeout, held at hook, #writes, how many of the victim's writes were answered before the teardown returned). " +
@@ -80,13 +95,18 @@ func init() {
 		"reconnect parts: case = 2 identically numbered peers, X bound to 1-2 approval features with 1-2 writes pending (timeout 25|50 ms, x2 on the race binary), the other peer bound to the rest, subscribed to all three and in half of the cases with a pending write that carries the same counter; " +
 		"X's connection is removed and set up again with the same SKI, X repeats announcement, bindings and writes with the SAME message counters (now under a timeout of 30 min); observed until 5 x the short timeout after the removal: nothing on the old connection, the new writes still pending and unanswered, " +
 		"then the application approves (3/4) or denies (1/4) them: exactly one matching result on the new connection, one data change event and one notification per approved write. non-trivial if the re-sent writes were pending before the short timeout had passed since the first writes. " +
-		"One quarter of the cases (approve-at-removal, always non-trivial): the application's approval of a pending write is held at the hook ApproveOrDenyWrite.afterLookup while the connection is removed: the write must not be carried out (no data change event, no notification, nothing on the removed connection)."
+		"One quarter of the cases (stale-approvals, second PRNG; non-trivial if every approval of the first connection returned before the time-out result of its write was on the tap): one LoadControl server feature with k in {2,3} harness-driven callbacks, 1-2 writes of the first connection collect j<k approvals (mostly k-1) and time out (15|25|40 ms), " +
+		"the connection is removed and set up again, the writes are re-sent with the same counters under a 30 min timeout and decided one ApproveOrDenyWrite call at a time in a drawn order (all approve, or one denial after at least one approval; two writes interleaved in half of the cases): " +
+		"after every call a write with fewer than k approvals and no denial has no result and unchanged data, a denied one exactly one error result and unchanged data, a unanimously approved one is applied and acknowledged iff requested; no counted approval for the removed SKI is left after the removal returned. " +
+		"Of the remaining cases one quarter (approve-at-removal, always non-trivial): the application's approval of a pending write is held at the hook ApproveOrDenyWrite.afterLookup while the connection is removed: the write must not be carried out (no data change event, no notification, nothing on the removed connection)."
 	assume := []string{
 		"absence of datagrams on the removed connection is observed until all pending approval timers of the other peers have fired, the process is back at its baseline goroutine count and at least 5 x the approval timeout (250 ms) has passed since the removal call returned; the verdict is on the tap content (logical sequence numbers), the clock only bounds the observation",
 		"pending approvals of surviving peers are judged by their outcome (every such write receives exactly one result, the timeout error), because their timers legitimately fire during the case; state read immediately after the teardown is only judged where timers cannot change the verdict",
 		"concurrent messages of the other peer are reads, subscribes, unsubscribes and binds of free features: nothing that fans out to the removed peer, so an in-flight notification racing with the removal is not generated",
 		"events are observed at the core level (synchronous)",
 		"window parts: the pause of the harness's event handler only places the other peers' requests; its expiry is never judged, and no verdict depends on whether a request was served during or after the cleanup. All requests concern pairs the teardown does not touch and server features the victim does not hold, so each of them must be acknowledged in every order",
+		"repeated announcements carry exactly the content of the first announcement (same entities, features, types, roles), so the announced tree - and with it everything the statement quantifies over - is unchanged; nothing is judged at the repeated announcement itself",
+		"stale-approvals histories: the time-outs of the first connection's writes are awaited by observing their error results (watchdog 20 s => inconclusive); an approval of the first connection that arrives after its write timed out is simply not counted by the stack, which weakens the history but not the verdicts, which are all on the state at the return of a call",
 		"reconnect parts: the clock only bounds the observation (5 x the short approval timeout after the removal returned, and until the other peer's timer has fired); the 30 min timeout of the re-sent writes stands for 'does not expire within the case'",
 	}
 	rig.Register(&rig.Check{
@@ -108,19 +128,57 @@ func init() {
 }
 
 type c10Op struct {
-	kind string // sub | bind | lsub | lbind
+	kind string // sub | bind | lsub | lbind | reann
 	peer int
 	ent  []uint
-	srv  int // index of the local server feature (sub, bind)
-	lc   int // index of the local client feature (lsub, lbind)
+	srv  int    // index of the local server feature (sub, bind)
+	lc   int    // index of the local client feature (lsub, lbind)
+	how  string // reann: "reply" (the whole detailed discovery reply once more) | "added" (partial notify lastStateChange=added for the known entity ent)
 }
 
 func (o c10Op) String() string {
 	switch o.kind {
+	case "reann":
+		if o.how == "reply" {
+			return fmt.Sprintf("peer%d announces its (unchanged) tree AGAIN: second detailed discovery reply", o.peer)
+		}
+		return fmt.Sprintf("peer%d announces its known entity %s AGAIN: partial notify lastStateChange=added with the entity's (unchanged) features", o.peer, c06Key(o.ent))
 	case "sub", "bind":
 		return fmt.Sprintf("peer%d %s %s/%d -> local server %d", o.peer, o.kind, c06Key(o.ent), o.srv+1, o.srv)
 	}
 	return fmt.Sprintf("local client %d %s -> peer%d %s/%d", o.lc, o.kind, o.peer, c06Key(o.ent), 7+o.lc)
+}
+
+// c10Aux is a second per-case PRNG (a pure function of seed, case index and salt) for dimensions that were added
+// to existing histories later: drawing them from c.Rand would have re-dealt every history the check had.
+func c10Aux(c *rig.Ctx, salt int64) *rand.Rand {
+	return rand.New(rand.NewSource(c.Seed*1000003 + int64(c.Index)*7919 + salt))
+}
+
+// c10Reannounce lets p announce something it has announced before once more, with unchanged content: the whole
+// detailed discovery reply (what a second discovery read of the local device is answered with), or a partial
+// notify with lastStateChange=added for the known entity ent together with that entity's features. The remote
+// device tree is the same afterwards (the stack may well have rebuilt its objects), so nothing a later teardown
+// has to remove or to keep may depend on whether such a message was received.
+func c10Reannounce(p *rig.Peer, tree []rig.FS, how string, ent []uint) {
+	if how == "reply" {
+		p.Announce(tree)
+		return
+	}
+	var feats []rig.FS
+	for _, f := range tree {
+		if c06Key(f.Ent) == c06Key(ent) {
+			feats = append(feats, f)
+		}
+	}
+	p.NotifyDiscovery(true, p.Discovery(feats, map[string]model.NetworkManagementStateChangeType{fmt.Sprint(ent): model.NetworkManagementStateChangeTypeAdded}, nil))
+}
+
+func c10ReannHow(aux *rand.Rand) string {
+	if aux.Intn(2) == 0 {
+		return "reply"
+	}
+	return "added"
 }
 
 type c10Write struct {
@@ -142,6 +200,8 @@ type c10World struct {
 	trace []string
 	log   [][]rig.Out // everything taken from the taps, per peer, with its logical sequence number
 	hard  bool        // a deviation after which the reference is no longer trustworthy
+	tree  []rig.FS    // what every peer announces
+	reann []int       // per peer: number of re-announcements so far
 }
 
 // Two deviations found by this check on earlier trees keep their own narrow signatures (both are repaired
@@ -269,6 +329,13 @@ func (cw *c10World) exec(o c10Op, phase string) {
 	p := cw.peers[o.peer]
 	cw.trace = append(cw.trace, o.String())
 	switch o.kind {
+	case "reann":
+		c10Reannounce(p, cw.tree, o.how, o.ent)
+		cw.reann[o.peer]++
+		cw.take(o.peer)
+		if n := p.PanicCount(); n > 0 {
+			cw.fail(phase+"/panic", "panic while handling a repeated announcement: %v", p.Panics)
+		}
 	case "sub", "bind":
 		fid := uint(o.srv + 1)
 		ca, sa := rig.FA(p.Addr, o.ent, fid), cw.srv[o.srv].Address()
@@ -361,6 +428,7 @@ func c10Case(c *rig.Ctx) {
 			tree = append(tree, rig.FS{Ent: ea, Id: uint(7 + i), Typ: t, Role: model.RoleTypeServer})
 		}
 	}
+	cw.tree, cw.reann = tree, make([]int, 3)
 	for i := 0; i < 3; i++ {
 		p := w.AddPeer(i)
 		p.Ctr = uint64(i+1) * 100000
@@ -371,6 +439,7 @@ func c10Case(c *rig.Ctx) {
 	}
 	w.Core.Take()
 	baseline := runtime.NumGoroutine()
+	aux := c10Aux(c, 10)
 
 	// ---- history
 	var ops []c10Op
@@ -403,8 +472,39 @@ func c10Case(c *rig.Ctx) {
 	}
 	r.Shuffle(len(ops), func(i, j int) { ops[i], ops[j] = ops[j], ops[i] })
 	cut := len(ops)/3 + r.Intn(len(ops)-len(ops)/3+1)
+	// repeated announcements (second PRNG): every peer, with probability 1/2, announces its unchanged tree or one of
+	// its known entities once more somewhere in the history; in a quarter of the cases a random set of peers does so
+	// right before the cut (after everything it has subscribed and bound)
+	for pi := range cw.peers {
+		if aux.Intn(2) == 0 {
+			at := aux.Intn(len(ops) + 1)
+			o := c10Op{kind: "reann", peer: pi, how: c10ReannHow(aux), ent: c10Ents[aux.Intn(len(c10Ents))]}
+			ops = append(ops[:at], append([]c10Op{o}, ops[at:]...)...)
+			if at < cut {
+				cut++
+			}
+		}
+	}
+	if aux.Intn(4) == 0 {
+		for pi := range cw.peers {
+			if aux.Intn(2) == 0 {
+				o := c10Op{kind: "reann", peer: pi, how: c10ReannHow(aux), ent: c10Ents[aux.Intn(len(c10Ents))]}
+				ops = append(ops[:cut], append([]c10Op{o}, ops[cut:]...)...)
+				cut++
+			}
+		}
+	}
+	boundWhenReannounced := make([]int, 3) // bindings a peer held when it (last) announced itself again
 	for _, o := range ops[:cut] {
 		cw.exec(o, "setup")
+		if o.kind == "reann" {
+			boundWhenReannounced[o.peer] = 0
+			for _, en := range cw.regs {
+				if en.kind == "bind" && en.peer == o.peer {
+					boundWhenReannounced[o.peer]++
+				}
+			}
+		}
 	}
 	if cw.hard {
 		return
@@ -492,6 +592,7 @@ func c10Case(c *rig.Ctx) {
 		}
 	}
 	X := cw.peers[x]
+	reannX := cw.reann[x] > 0 // the victim announced itself again before its teardown
 	kind := []string{"disconnect", "remove[1]", "remove[1,1]"}[r.Intn(3)]
 	remEnt := map[string]string{"disconnect": "", "remove[1]": "[1]", "remove[1,1]": "[1,1]"}[kind]
 	conc := r.Intn(3) == 0 || c.Race
@@ -594,7 +695,23 @@ func c10Case(c *rig.Ctx) {
 	}
 
 	// ---- teardown
+	// an entity removal may come in one notify together with the removal of an entity the local device does not
+	// know (never announced): that entry is to be skipped, the known entity is to be removed all the same
+	removedList := [][]uint{entOf(remEnt)}
+	unknownPos := ""
+	if kind != "disconnect" {
+		switch aux.Intn(4) {
+		case 0:
+			removedList, unknownPos = [][]uint{{9}, entOf(remEnt)}, "before"
+		case 1:
+			removedList, unknownPos = [][]uint{entOf(remEnt), {9}}, "after"
+		}
+	}
 	cw.trace = append(cw.trace, fmt.Sprintf("TEARDOWN peer%d %s (concurrent messages of peer%d: %d)", x, kind, y, len(yops)))
+	if unknownPos != "" {
+		cw.trace = append(cw.trace, fmt.Sprintf("  the removal notify also lists the never announced entity [9] as removed, %s the known one", unknownPos))
+		c.Count("removal_notifies_listing_an_unknown_entity_"+unknownPos+"_the_known_one", 1)
+	}
 	for pi := range cw.peers {
 		cw.take(pi) // results of the setup; the pending writes have not been answered unless their timer fired already
 	}
@@ -622,7 +739,7 @@ func c10Case(c *rig.Ctx) {
 		if kind == "disconnect" {
 			w.Local.RemoveRemoteDeviceConnection(X.Ski)
 		} else {
-			X.NotifyDiscovery(true, X.Discovery(nil, nil, [][]uint{entOf(remEnt)}))
+			X.NotifyDiscovery(true, X.Discovery(nil, nil, removedList))
 		}
 		seqReturn = rig.Seq()
 		tReturn = time.Now()
@@ -892,6 +1009,14 @@ func c10Case(c *rig.Ctx) {
 		return pi != x || (remEnt != "" && c06Key(ent) != remEnt)
 	}
 	for _, o := range ops[cut:] {
+		if o.kind == "reann" {
+			// a survivor may announce itself again at any time; the peer that lost an entity only repeats a surviving entity
+			if o.peer == x && (kind == "disconnect" || o.how == "reply" || !alive(o.peer, o.ent)) {
+				continue
+			}
+			cw.exec(o, "after-"+kind)
+			continue
+		}
 		if !alive(o.peer, o.ent) {
 			continue
 		}
@@ -1077,7 +1202,18 @@ func c10Case(c *rig.Ctx) {
 	c.Count("pending_writes_of_removed_device_or_entity", int64(len(wXent)))
 	c.Count("pending_writes_of_others", int64(len(wOther)))
 	c.Count("surviving_peers_probed", int64(served))
-	c.Shape(fmt.Sprintf("%s conc=%v regs=%d flags=%d pendX=%d pendO=%d", kind, conc, nRegs, nFlags, len(wXent), len(wOther)))
+	nReann := 0
+	for _, n := range cw.reann {
+		nReann += n
+	}
+	c.Count("repeated_announcements", int64(nReann))
+	if reannX {
+		c.Count("teardowns_of_a_peer_that_had_announced_itself_again", 1)
+		if boundWhenReannounced[x] > 0 {
+			c.Count("teardowns_of_a_peer_that_had_announced_itself_again_while_holding_bindings", 1)
+		}
+	}
+	c.Shape(fmt.Sprintf("%s conc=%v regs=%d flags=%d pendX=%d pendO=%d reannX=%v unk=%s", kind, conc, nRegs, nFlags, len(wXent), len(wOther), reannX, unknownPos))
 	c.NonTrivial(nRegs > 0 && nFlags > 0 && nTwins > 0)
 	tr := cw.trace
 	if len(tr) > 40 {
@@ -1154,6 +1290,17 @@ func c10Expiry(c *rig.Ctx) {
 			return
 		}
 		peers = append(peers, p)
+	}
+	// a quarter of the cases: both peers announce their unchanged tree (or the entity they bound from) once more
+	reann := ""
+	if aux := c10Aux(c, 12); aux.Intn(4) == 0 {
+		for i, p := range peers {
+			how := c10ReannHow(aux)
+			c10Reannounce(p, tree, how, from[i])
+			p.Tap.Take()
+			reann += fmt.Sprintf(" peer%d announced itself again (%s);", i, how)
+		}
+		c.Count("expiry_teardowns_after_repeated_announcements", 1)
 	}
 	w.Core.Take()
 	baseline := runtime.NumGoroutine()
@@ -1232,8 +1379,8 @@ func c10Expiry(c *rig.Ctx) {
 		}
 		return n
 	}
-	desc := fmt.Sprintf("timeout %v, %s of peer%d (writes from %s) aimed %v after the expiry of its first timer, held at the hook: %v; %d writes of peer%d, %d of peer%d pending",
-		T, kind, x, c06Key(from[x]), offset, atHook, nX, x, nY, y)
+	desc := fmt.Sprintf("timeout %v, %s of peer%d (writes from %s) aimed %v after the expiry of its first timer, held at the hook: %v; %d writes of peer%d, %d of peer%d pending;%s",
+		T, kind, x, c06Key(from[x]), offset, atHook, nX, x, nY, y, reann)
 	if n := pendingOf(x); n != 0 {
 		c.Violate("expiry/"+kind+"/pending-approvals-survive", "%s: the stack still holds %d pending approvals for the victim after the teardown returned", desc, n)
 	}
@@ -1511,6 +1658,19 @@ func c10Window(c *rig.Ctx) {
 	for _, en := range ops {
 		if !setup(en) {
 			return
+		}
+	}
+	// a third of the cases: some peers announce their unchanged tree (or one known entity) once more after the setup
+	if aux := c10Aux(c, 11); aux.Intn(3) == 0 {
+		for pi, p := range peers {
+			if aux.Intn(2) == 0 {
+				o := c10Op{kind: "reann", peer: pi, how: c10ReannHow(aux), ent: c10Ents[aux.Intn(len(c10Ents))]}
+				c10Reannounce(p, tree, o.how, o.ent)
+				trace = append(trace, o.String())
+				if pi == x {
+					c.Count("window_teardowns_of_a_peer_that_had_announced_itself_again", 1)
+				}
+			}
 		}
 	}
 
@@ -1950,6 +2110,12 @@ func c10OpList(ops []*c10WinOp) string {
 const c10Long = 30 * time.Minute // "never within a case"; Close() removes the connection and with it the pending approval
 
 func c10Reconnect(c *rig.Ctx) {
+	// a quarter of the cases (second PRNG): approvals counted for a write that TIMED OUT on the first connection
+	// must not count for the write with the same counter on the second connection (x_c10c12_stale.go)
+	if aux := c10Aux(c, 13); aux.Intn(4) == 0 {
+		xStaleApprovals(c, aux, "stale-approvals", true)
+		return
+	}
 	r := c.Rand
 	w := rig.NewWorld(c.Tag())
 	defer w.Close()
